@@ -255,4 +255,40 @@ func c18(c *ctx) {
 			})
 		}
 	}
+
+	// ------------------------------------------------------------------ R6
+	r.Rule("R6", "ALIAS", "a delivered message owns its bytes: the Message put into the inbox by handlePacket does not share a backing array with the reassembly buffer while that buffer is re-used (re-sliced, not replaced) for the next message", 2)
+	if mmT := c.p.Named("lib", "MessageAndMetadata"); mmT != nil {
+		asmF := c.field("p2p", "Stream", "msgAssembler")
+		msgF := c.p.Field("lib", "MessageAndMetadata", "Message")
+		if asmF != nil && r.Anchor(msgF != nil, "lib.MessageAndMetadata.Message") {
+			// does handlePacket keep the buffer's backing array (s.msgAssembler = s.msgAssembler[:0]) ?
+			reuse := false
+			for _, st := range storesTo(handlePacket, asmF) {
+				if p := c.p.path(st.Val); strings.HasPrefix(p, "$0.msgAssembler[") {
+					reuse = true
+				}
+			}
+			n := 0
+			instrs(handlePacket, func(in ssa.Instruction) {
+				a, ok := in.(*ssa.Alloc)
+				if !ok {
+					return
+				}
+				if nt := namedOf(a.Type()); nt == nil || nt.Obj() != mmT.Obj() {
+					return
+				}
+				n++
+				v := litField(a, msgF)
+				pm := "<unset>"
+				if v != nil {
+					pm = c.p.path(v)
+				}
+				aliases := strings.Contains(pm, "$0.msgAssembler") && !strings.HasPrefix(pm, "bytes.Clone(") && !strings.HasPrefix(pm, "slices.Clone(")
+				r.Check(!(aliases && reuse), "R6/handlePacket/message-bytes", c.p.Pos(in.Pos()), "Message = "+pm+" (buffer re-used: "+fmt.Sprint(reuse)+")",
+					"the message delivered to the inbox is "+pm+", the reassembly buffer itself, and handlePacket keeps re-using that buffer's backing array: the next packets overwrite a message the consumer is still reading (two messages merged)")
+			})
+			r.Check(n >= 1, "R6/handlePacket/delivers", c.p.Pos(handlePacket.Pos()), "handlePacket builds the delivered message", "no MessageAndMetadata is built in handlePacket any more (rule needs re-reading)")
+		}
+	}
 }
